@@ -78,6 +78,23 @@ pub fn context_variants() -> Vec<(Vec<Inst>, Shape)> {
         Inst::new("FunctionEnd", None, None, vec![]),
     ];
     let f2 = [Inst::new("Function", Some(80), Some(84), vec![Arg::Mask("FunctionControl", 0), Arg::IdRef(82)]), Inst::new("Label", None, Some(85), vec![])];
+    // a 64-bit type as the (N+1)-th numerically typed id of the module, for every N up to 70 (a table that drops or
+    // misplaces every k-th entry), with ascending ids and with one high id first and the rest climbing past it
+    for n in 0..=70u32 {
+        for climb in [false, true] {
+            let tid = if climb { 10_000 } else { 5_000 };
+            let mut p: Vec<Inst> = (0..n).map(|i| Inst::new("TypeInt", None, Some(if climb { 900 * (i + 1) } else { 100 + i }), vec![Arg::Lit32(1000 + i), Arg::Lit32(0)])).collect();
+            let ty = Inst::new("TypeInt", None, Some(tid), vec![Arg::Lit32(64), Arg::Lit32(0)]);
+            if climb {
+                p.insert(0, ty);
+            } else {
+                p.push(ty);
+            }
+            out.push((p.clone(), Shape { id: format!("Constant:u64-after-{}-types:climb={}", n, climb), inst: Inst::new("Constant", Some(tid), Some(4_999), vec![Arg::Lit64(0x8000_0000_0000_0001)]) }));
+            p.push(Inst::new("Undef", Some(tid), Some(4_998), vec![]));
+            out.push((p, Shape { id: format!("Switch:u64-after-{}-types:climb={}", n, climb), inst: Inst::new("Switch", None, None, vec![Arg::IdRef(4_998), Arg::IdRef(40), Arg::Lit64(0xFFFF_FFFF_FFFF_FFFE), Arg::IdRef(41)]) }));
+        }
+    }
     for (pre, s) in context_shapes() {
         if s.id.contains(":type14:") && !s.id.starts_with("Switch") {
             // kept: unsupported widths must stay unsupported under renaming too
